@@ -334,8 +334,9 @@ def ex_name(case, obs):
     c = (n // 2, n // 2, n // 2)
     exp = shapes.solid(kind, box, c, list(specs))
     obs.nontrivial = bool(exp.any() and not exp.all())
-    _judge_hard(obs, "generate_mask", f"name-{kind}", g, exp, [("voxel-missing", _true(box))], [("voxel-wrongly-set", _true(box))],
-                cls="default-centre", what=f"{name} mask_size {msize} -> box {n}")
+    if n % 2 == 0 or kind not in ("ellipsoid", "e_shell"):   # the ellipsoid inequality is stated for even boxes only
+        _judge_hard(obs, "generate_mask", f"name-{kind}", g, exp, [("voxel-missing", _true(box))], [("voxel-wrongly-set", _true(box))],
+                    cls="default-centre", what=f"{name} mask_size {msize} -> box {n}")
     # ... and the direct call with the same numbers builds the same array
     if kind == "sphere":
         ok, d = _call(obs, "spherical_mask", "direct", cm.spherical_mask, n, radius=specs[0], center=c)
@@ -670,7 +671,7 @@ def families(tier, seed):
                            expect=("ellipsoid-surface-voxel-missing", "ellipsoid-outside-voxel-set")))
 
     # -- names -------------------------------------------------------------------------------
-    names = _name_cases(6, 8, 4, (1, 2, 3, 4, 5, 6), (None, 12, 16)) if quick else _name_cases(8, 10, 4, (1, 2, 3, 4, 5, 6, 7, 8), (None, 12, 16, 20))
+    names = _name_cases(6, 8, 4, (1, 2, 3, 4, 5, 6), (None, 12, 16, 15)) if quick else _name_cases(8, 10, 4, (1, 2, 3, 4, 5, 6, 7, 8), (None, 12, 16, 20, 15, 21))
     fams.append(Family("names", Listed(names), ex_name,
                        expect=("name-parsed", "name-box-cubic", "name-box-equals-mask_size", "name-box-at-least-mask_size", "name-equals-direct-call",
                                "name-sphere-voxel-missing", "name-cylinder-voxel-wrongly-set", "name-s_shell-voxel-missing",
